@@ -28,9 +28,9 @@ package formatter
 
 // The global alignment column leaves at least two blanks after the longest account (width counted in characters).
 //@ func calculateGlobalAlignmentColumnWithIndent
-//@   props C05 C06
+//@   props C05 C06 C19
 //@   effects none
-//@   ensures [C05:wide_enough] forall i int, j int :: {transactions[i].Postings[j]} 0 <= i && i < len(transactions) && 0 <= j && j < len(transactions[i].Postings) ==> result >= indentSize + dispLen(transactions[i].Postings[j]) + 2
+//@   ensures [C05,C19:wide_enough] forall i int, j int :: {transactions[i].Postings[j]} 0 <= i && i < len(transactions) && 0 <= j && j < len(transactions[i].Postings) ==> result >= indentSize + dispLen(transactions[i].Postings[j]) + 2
 //@   loop 1 invariant 0 - 1 <= rangeindex && rangeindex <= len(transactions) - 1 && maxLen >= 0
 //@   loop 1 invariant forall i int, j int :: {transactions[i].Postings[j]} 0 <= i && i <= rangeindex && 0 <= j && j < len(transactions[i].Postings) ==> maxLen >= dispLen(transactions[i].Postings[j])
 //@   loop 2 invariant 0 <= i && i < len(transactions) && 0 - 1 <= rangeindex && rangeindex <= len(transactions[i].Postings) - 1 && maxLen >= 0
